@@ -1006,6 +1006,11 @@ func (ex *Exec) applyContract(st *State, con *Contract, sfn *ssa.Function, c *ss
 				// clause about the callee's internal calls: meaningful only inside the callee; not assumed here
 				continue
 			}
+			if !con.Trusted && con.Kind == "func" && strings.Contains(err.Error(), "unknown identifier") {
+				// clause about the callee's local variables (#X, locals at the return): proved inside the callee (where an
+				// unknown name is an error), not visible to callers; not assumed here
+				continue
+			}
 			unsup("%s:%d: ensures[%s] of %s: %v", e.File, e.Line, e.Label, shortKey(con.Key), err)
 		}
 		g.assume(ex.pcCur, t)
